@@ -12,3 +12,4 @@ import AcryoVerif.Props.C15
 import AcryoVerif.Props.C12
 import AcryoVerif.Props.C13
 import AcryoVerif.Props.C01
+import AcryoVerif.Props.C11
